@@ -23,6 +23,7 @@ type Case struct {
 	Params P      `json:"p,omitempty"`
 	Fault  Fault  `json:"f"`
 	Cancel bool   `json:"cancel,omitempty"` // the client goes away as soon as a statement blocks
+	Now    int64  `json:"now,omitempty"`    // value of the symbolic NOW (s); 0 = this process's runNow
 	// CensusMs / ResponseMs override the census and response bounds (the grid run uses short ones, confirmation
 	// runs the generous ones).
 	CensusMs   int `json:"census_ms,omitempty"`
@@ -110,6 +111,9 @@ func runCase(h *rh.Harness, c Case) Result {
 	sc := newScript(c.Fault)
 	h.Script.SetHandler(sc.Handle)
 	h.FreshName()
+	if c.Now != 0 {
+		runNow = c.Now
+	}
 	req := spec.Build(c.Query, resolve(c.Params, spec.Unit))
 	req.CancelWhenBlocked = c.Cancel
 	old := rh.CensusBound
